@@ -466,7 +466,7 @@ func c02(c *wk.Ctx) {
 		r.Violationf("C02|route=plain|concurrent-workers|outcome=process-aborted", json.RawMessage(d.Desc), "concurrent workers restoring disjoint keys ended the process (exit %d): %s", d.Result.Exit, firstPanicLine(d.Result.Stderr))
 	})
 	r.Floor("concurrent_worker_groups", 30)
-	r.Floor("concurrently_restored_keys_checked", 2000)
+	r.Floor("concurrently_restored_keys_checked", 1000)
 	r.Floor("route:rump-bigkey-sequences", 150)
 	for _, rt := range []string{"plain", "bigkey", "quicklist", "fallback", "chunked"} {
 		r.Floor("route:"+rt, 3)
